@@ -343,3 +343,10 @@ pub fn run(ctx: &Ctx) -> Report {
         exhaustive: false,
     }
 }
+
+pub fn keyword_of(c: &Carrier) -> String {
+    c.keyword()
+}
+pub fn suffix_of(c: &Carrier) -> String {
+    c.suffix()
+}
